@@ -138,7 +138,7 @@ CHECKS["C07"] = {
 
 CHECKS["C08"] = {
     "corpus": True,
-    "runs": [R("./vm", {"fn": r"^ZZ_C08_(control_(d1|d2_lite|d1_text)|truthiness|forin_slice|forin_map)$"}, {"fn": r"^ZZ_C08_(control_(d1|d2_b2|d1_text|d2_text)|truthiness|forin_slice|forin_map)$", "wall_timeout": 10000})],
+    "runs": [R("./vm", {"fn": r"^ZZ_C08_(control_(d1|d2_lite|d1_text)|truthiness|forin_slice|forin_map|forin_corner_entries)$"}, {"fn": r"^ZZ_C08_(control_(d1|d2_b2|d1_text|d2_text)|truthiness|forin_slice|forin_map|forin_corner_entries)$", "wall_timeout": 10000})],
     "expect_asserts": [r"C08\.probe-trace", r"C08\.error-status", r"C08\.return-value", r"C08\.truthiness/branch-taken-iff-truthy/.*", r"C08\.for-in-slice/index-order-and-element/.*", r"C08\.for-in-map/every-entry-once/.*"],
     "bounds": {"quick": "all abstract programs of depth 1 (11 statement kinds x leaf outcomes x condition truth sequences of <= 2 true evaluations x 0..2 for-in elements) and depth-2 programs over 7 kinds with one nested compound (lite); return leaves are `return v`, bare `return` or `return v, w`; switch cases list one or two expressions; the depth-1 programs are also rendered as source text and run through the parser, with the default clause before, between or after the cases",
                "thorough": "depth 2 with <= 2 compound statements over all 11 kinds, as trees and as source text"},
@@ -177,7 +177,7 @@ CHECKS["C01"] = {
     "runs": _C01_RUNS + _C01_EXTRA + [R("./parser", {"fn": r"^ZZ_C15_P2_parse_n[12]$"}, {"fn": r"^ZZ_C15_P2_parse_n[123]$"})],
     "expect_asserts": [r"C01\.step\.no-panic/CallExpr", r"C01\.step\.no-panic/LetsStmt", r"C01\.step\.no-goroutine-crash/CallExpr", r"C15\.P2\.parse-no-panic", r"C01\.step\.bindings-well-formed/.*", r"C01\.interference\.no-panic/for-in-map/.*"],
     "bounds": {"quick": {"node kinds": "all (derived from go/types), one node with arbitrary children (inductive step)", "varied child": "23 value classes (the first 19 of the universe plus map[int64]string, a nil map, a nil []int64, an addressable struct value) x 2 provenances or a failing child; one further child over 3 benign classes; assignment targets: identifier, member / index / slice of a fixed or an arbitrary container, dereference, non-l-value",
-                         "interference": "7 program families (source text) in which a child changes the container its parent works on: for-in over maps of 1..3 entries x 10 mutations x 1|2 loop variables x every key order, slices, channels, assignment targets, operands, conditions",
+                         "interference": "9 program families (source text; the last two: the loop variable of a for-in over containers with nil pointer / nil container / nil elements used in 21 ways, and 33 operations on nil pointers, nil typed containers and huge counts) in which a child changes the container its parent works on: for-in over maps of 1..3 entries x 10 mutations x 1|2 loop variables x every key order, slices, channels, assignment targets, operands, conditions",
                          "statement children": "one child over 6 outcomes (normal, break, continue, return, error, throw)", "lists": "0..2 elements", "parse": "sources of <= 2 symbolic ASCII runes through the real ParseSrc"},
                "thorough": {"varied child": "all 38 value classes x 2 provenances", "parse": "<= 3 runes"}},
     "stubs": ["host Go functions of the universe: identity, variadic, one that panics, one returning (value, error)", "instruction budget 300000 per step: non-terminating loops are cut and counted"],
